@@ -241,6 +241,13 @@ def ghostPatternPass (msg : String) (g : GhostData) (es : Errors) : Errors :=
   | .destruction _ => es.insert msg
   | _ => es
 
+/-- a variant is expanded as a struct of its own, without `#[child_parents]`: a variant-level ghost cannot be addressed
+    to a nested struct -/
+def variantGhostChildPass (g : GhostData) (es : Errors) : Errors :=
+  if g.childPath.isSome then
+    es.insert "Variant-level #[ghosts(...)] cannot address a nested struct ('path@name'): #[child_parents(...)] is only available for structs."
+  else es
+
 /-- the body of the `for member in input.get_members()` loop of `validate` -/
 def validateMember (input : DataType) (isEnum : Bool) (typePaths : List TypePath) (byKind : List (TraitAttrCore × Kind))
     (es : Errors) (member : DataTypeMember) : Errors :=
@@ -261,12 +268,15 @@ def validateMember (input : DataType) (isEnum : Bool) (typePaths : List TypePath
       parentTypePass f byKind es
     | .variant v =>
       let es := barkAtMemberAttr ma.parentAttrs.length "parent" es
-      let es := (ma.ghostsAttrs.flatMap (·.attr.ghostData)).foldl (fun es g => ghostPatternPass "Variant-level #[ghosts(...)] should name a member of the other type's variant, not a pattern." g es) es
+      let es := (ma.ghostsAttrs.flatMap (·.attr.ghostData)).foldl (fun es g =>
+        variantGhostChildPass g (ghostPatternPass "Variant-level #[ghosts(...)] should name a member of the other type's variant, not a pattern." g es)) es
       let es := validateDedicatedMemberAttrs (ma.litAttrs.map (·.containerTy)) (some "literal") typePaths es
       let es := validateDedicatedMemberAttrs (ma.patAttrs.map (·.containerTy)) (some "pattern") typePaths es
       let es := validateDedicatedMemberAttrs (ma.typeHintAttrs.map (·.containerTy)) (some "type_hint") typePaths es
       -- the payload fields of the variant
       v.fields.foldl (fun es f =>
+        let es := barkAtMemberAttr f.attrs.childAttrs.length "child" es
+        let es := parentTypePass f byKind es
         let es := validateDedicatedMemberAttrs (f.attrs.attrs.map (·.attr.containerTy)) none typePaths es
         let es := validateDedicatedMemberAttrs (f.attrs.ghostAttrs.map (·.attr.containerTy)) none typePaths es
         validateMemberErrorInstrs isEnum f.attrs.errorInstrs es) es
